@@ -17,6 +17,8 @@
 //!   KIND 7: actor 0 = blocking recv on rx0; tx1 = clone of tx0 exists
 //!           actor 1: drops tx0      actor 2: drops tx1      (nesting depth 2: one drop may be
 //!           preempted by the other while the receiver is parked)
+//!   KIND 8: like 1, but during set-up tx0 was cloned and the clone dropped again: tx0's first send
+//!           after becoming the only sender again goes through the Multi -> Uni fallback
 //! With `lap` the ring is first lapped once (N sends, N receives): on a never-written slot the
 //! wait condition is immediately true (the initial tag counts as "ahead"), so only on a lapped
 //! ring does the receiver really go to sleep.
@@ -118,8 +120,11 @@ pub fn blocked_recv_lap<F: Fl, const KIND: u8>(cap: u64, idle_limit: u32, lap: u
         assert!(lg().recs[rs].res == R_OK, "C09: a receive on a non-empty quiescent queue did not deliver");
         i += 1;
     }
-    if KIND == 6 || KIND == 7 {
+    if KIND == 6 || KIND == 7 || KIND == 8 {
         w.tx[1] = Some(F::clone_tx(w.tx[0].as_ref().unwrap()));
+    }
+    if KIND == 8 {
+        drop(w.tx[1].take());
     }
     if KIND == 4 {
         w.rx[1] = Some(F::clone_rx(w.rx[0].as_ref().unwrap()));
@@ -219,6 +224,8 @@ wt!(c08_mp_blk00_drop_lap, hk_c08_mp_blk00_drop_lap, MpBlk00, 3, 0, cap 1, lap 1
 wt!(c08_bc_blk00_sibling_lap, hk_c08_bc_blk00_sibling_lap, BcBlk00, 4, 0, cap 1, lap 1);
 wt!(c08_mp_blk00_lonesender_lap, hk_c08_mp_blk00_lonesender_lap, MpBlk00, 6, 0, cap 1, lap 1);
 wt!(c08_bc_blk11_lonesender_lap, hk_c08_bc_blk11_lonesender_lap, BcastPlain<u8, Blocking<1, 1>>, 6, 0, cap 2, lap 2);
+wt!(c08_mp_blk00_exmulti_lap, hk_c08_mp_blk00_exmulti_lap, MpBlk00, 8, 0, cap 1, lap 1);
+wt!(c08_bc_blk00_exmulti_lap, hk_c08_bc_blk00_exmulti_lap, BcBlk00, 8, 0, cap 2, lap 2);
 wt!(c08_mp_blk00_twodrops_lap, hk_c08_mp_blk00_twodrops_lap, MpBlk00, 7, 0, cap 1, lap 1);
 wt!(c08_bc_blk20_view_lap, hk_c08_bc_blk20_view_lap, BcBlk20, 5, 0, cap 1, lap 1);
 // spinning strategies: the stuck detector fires after 24 fruitless steps with nobody left to run
